@@ -44,10 +44,17 @@ for rel, fns in out.items():
     if d:
         com[rel] = d
 out['__commutative__'] = com
+pars = {}
+for rel in list(com) + [r for r in out if r not in com and not r.startswith('__')]:
+    if rel in pars:
+        continue
+    tree = ast.parse(open(os.path.join(REPO, rel), encoding='utf-8').read())
+    pars[rel] = {q: alpha.own_param_list(node) for q, node in alpha.top_functions(tree)}
+out['__params__'] = pars
 with open(alpha.TABLE, 'w') as fh:
     json.dump(out, fh, indent=0, sort_keys=True)
     fh.write('\n')
-print('functions:', sum(len(v) for k, v in out.items() if k != '__commutative__'))
+print('functions:', sum(len(v) for k, v in out.items() if not k.startswith('__')))
 
 # C functions: locals in order of declaration
 os.environ['VERIF_NO_ALPHA'] = '1'
